@@ -109,7 +109,7 @@ Proof.
       assert (Hg : kget (set_cur m (Some (OpAlloc r)) false) k = i) by (apply kget_some; exact Hl).
       rewrite Hg. unfold k_live. rewrite Hs. cbn. rewrite andb_false_r. cbn. exact HP.
     + apply N.eqb_neq in Ek.
-      destruct (k_live _); [destruct (_ && _ && _)|]; try exact HP; apply Pb_set_key_other; auto.
+      destruct (k_live _); [destruct (_ && _ && _); [|destruct (_ && _ && _)]|]; try exact HP; apply Pb_set_key_other; auto.
   - (* OpRelease *)
     cbn in Hr. apply orb_false_iff in Hr as [Hr1 Hr2].
     destruct (app =? 0); [exact HP|]. rewrite Hr2.
@@ -217,7 +217,7 @@ Proof.
     + (* OpAppRemove *)
       destruct (a_live _); [|exact HQ0]. unfold Qa. cbn. rewrite aget_upd.
       destruct (a =? id) eqn:E; [|exact HQ]. apply N.eqb_eq in E. subst. cbn. exact HQ.
-    + (* OpAlloc *) destruct (rq_foreign r); [exact HQ0|]. destruct (k_live _); [destruct (_ && _ && _)|]; exact HQ0.
+    + (* OpAlloc *) destruct (rq_foreign r); [exact HQ0|]. destruct (k_live _); [destruct (_ && _ && _); [|destruct (_ && _ && _)]|]; exact HQ0.
     + (* OpRelease *) destruct (app =? 0); [exact HQ0|]. destruct (key =? 0); [exact HQ0|]. destruct (_ && _ && _); exact HQ0.
   - destruct e as [key app node r p|key app ty|app|app|app st|node|node|key app]; cbn in H.
     + ok_or_err H. inversion H. exact HQ.
@@ -278,7 +278,7 @@ Proof.
       destruct (a_live _); [|exact HQ0]. unfold Qn. cbn. rewrite aget_upd.
       destruct (a =? id) eqn:E; [|exact HQ]. apply N.eqb_eq in E. subst. cbn. exact HQ.
     + (* OpAppRemove *) destruct (a_live _); exact HQ0.
-    + (* OpAlloc *) destruct (rq_foreign r); [exact HQ0|]. destruct (k_live _); [destruct (_ && _ && _)|]; exact HQ0.
+    + (* OpAlloc *) destruct (rq_foreign r); [exact HQ0|]. destruct (k_live _); [destruct (_ && _ && _); [|destruct (_ && _ && _)]|]; exact HQ0.
     + (* OpRelease *) destruct (app =? 0); [exact HQ0|]. destruct (key =? 0); [exact HQ0|]. destruct (_ && _ && _); exact HQ0.
   - destruct e as [key app node r p|key app ty|app|app|app st|node|node|key app]; cbn in H.
     + ok_or_err H. inversion H. exact HQ.
@@ -409,8 +409,13 @@ Proof.
     + (* OpAlloc *)
       destruct (rq_foreign r) eqn:Ef; [exact Base0|].
       destruct (k_live (kget (set_cur m (Some (OpAlloc r)) false) (rq_key r))) eqn:Ev.
-      * destruct (_ && _ && _); [|exact Base0]. split; [|split; [exact HA'|exact HN']]. cbn.
-        apply keys_upd_inv; [|exact HK']. intros _. cbn. apply (kget_live_asked m); [exact HK'|exact Ev].
+      * destruct (_ && _ && _).
+        { split; [|split; [exact HA'|exact HN']]. cbn.
+          apply keys_upd_inv; [|exact HK']. intros _. cbn. apply (kget_live_asked m); [exact HK'|exact Ev]. }
+        destruct (_ && _ && _); [|exact Base0].
+        (* the re-submission of a key whose release the core announced: the request itself is the submission *)
+        split; [|split; [exact HA'|exact HN']]. cbn. apply keys_upd_inv; [|exact HK']. intros _. cbn.
+        exists (IReq (OpAlloc r)). split; [apply in_or_app; right; now left|]. cbn. rewrite !N.eqb_refl, Ef. reflexivity.
       * split; [|split; [exact HA'|exact HN']]. cbn. apply keys_upd_inv; [|exact HK']. intros _. cbn.
         exists (IReq (OpAlloc r)). split; [apply in_or_app; right; now left|]. cbn. rewrite !N.eqb_refl, Ef. reflexivity.
     + (* OpRelease *)
